@@ -383,3 +383,64 @@ pub const EXTRA_ASSIGNMENTS: &[(&str, u64, &str)] = &[
 pub fn norm_name(s: &str) -> String {
     s.chars().filter(|c| c.is_ascii_alphanumeric()).map(|c| c.to_ascii_lowercase()).collect()
 }
+
+/// Official IANA names (TLS parameters registries) per registry type: used to judge constants that appear in
+/// the crate under a spelling the tables above do not list (aliases, new constants): a constant whose name,
+/// ignoring case / underscores and a _RESERVED suffix, is an official name must have that name's value.
+pub const OFFICIAL_NAMES: &[(&str, u64, &str)] = &[
+    ("TlsAlertDescription", 0, "close_notify"), ("TlsAlertDescription", 10, "unexpected_message"), ("TlsAlertDescription", 20, "bad_record_mac"),
+    ("TlsAlertDescription", 21, "decryption_failed"), ("TlsAlertDescription", 22, "record_overflow"), ("TlsAlertDescription", 30, "decompression_failure"),
+    ("TlsAlertDescription", 40, "handshake_failure"), ("TlsAlertDescription", 41, "no_certificate"), ("TlsAlertDescription", 42, "bad_certificate"),
+    ("TlsAlertDescription", 43, "unsupported_certificate"), ("TlsAlertDescription", 44, "certificate_revoked"), ("TlsAlertDescription", 45, "certificate_expired"),
+    ("TlsAlertDescription", 46, "certificate_unknown"), ("TlsAlertDescription", 47, "illegal_parameter"), ("TlsAlertDescription", 48, "unknown_ca"),
+    ("TlsAlertDescription", 49, "access_denied"), ("TlsAlertDescription", 50, "decode_error"), ("TlsAlertDescription", 51, "decrypt_error"),
+    ("TlsAlertDescription", 52, "too_many_cids_requested"), ("TlsAlertDescription", 60, "export_restriction"), ("TlsAlertDescription", 70, "protocol_version"),
+    ("TlsAlertDescription", 71, "insufficient_security"), ("TlsAlertDescription", 80, "internal_error"), ("TlsAlertDescription", 86, "inappropriate_fallback"),
+    ("TlsAlertDescription", 90, "user_canceled"), ("TlsAlertDescription", 100, "no_renegotiation"), ("TlsAlertDescription", 109, "missing_extension"),
+    ("TlsAlertDescription", 110, "unsupported_extension"), ("TlsAlertDescription", 111, "certificate_unobtainable"), ("TlsAlertDescription", 112, "unrecognized_name"),
+    ("TlsAlertDescription", 113, "bad_certificate_status_response"), ("TlsAlertDescription", 114, "bad_certificate_hash_value"), ("TlsAlertDescription", 115, "unknown_psk_identity"),
+    ("TlsAlertDescription", 116, "certificate_required"), ("TlsAlertDescription", 117, "general_error"), ("TlsAlertDescription", 120, "no_application_protocol"),
+    ("TlsAlertDescription", 121, "ech_required"),
+    ("TlsAlertSeverity", 1, "warning"), ("TlsAlertSeverity", 2, "fatal"),
+    ("TlsHandshakeType", 0, "hello_request"), ("TlsHandshakeType", 1, "client_hello"), ("TlsHandshakeType", 2, "server_hello"),
+    ("TlsHandshakeType", 3, "hello_verify_request"), ("TlsHandshakeType", 4, "new_session_ticket"), ("TlsHandshakeType", 5, "end_of_early_data"),
+    ("TlsHandshakeType", 6, "hello_retry_request"), ("TlsHandshakeType", 8, "encrypted_extensions"), ("TlsHandshakeType", 9, "request_connection_id"),
+    ("TlsHandshakeType", 10, "new_connection_id"), ("TlsHandshakeType", 11, "certificate"), ("TlsHandshakeType", 12, "server_key_exchange"),
+    ("TlsHandshakeType", 13, "certificate_request"), ("TlsHandshakeType", 14, "server_hello_done"), ("TlsHandshakeType", 15, "certificate_verify"),
+    ("TlsHandshakeType", 16, "client_key_exchange"), ("TlsHandshakeType", 17, "client_certificate_request"), ("TlsHandshakeType", 20, "finished"),
+    ("TlsHandshakeType", 21, "certificate_url"), ("TlsHandshakeType", 22, "certificate_status"), ("TlsHandshakeType", 23, "supplemental_data"),
+    ("TlsHandshakeType", 24, "key_update"), ("TlsHandshakeType", 25, "compressed_certificate"), ("TlsHandshakeType", 26, "ekt_key"),
+    ("TlsHandshakeType", 254, "message_hash"),
+    ("TlsRecordType", 20, "change_cipher_spec"), ("TlsRecordType", 21, "alert"), ("TlsRecordType", 22, "handshake"),
+    ("TlsRecordType", 23, "application_data"), ("TlsRecordType", 24, "heartbeat"), ("TlsRecordType", 25, "tls12_cid"), ("TlsRecordType", 26, "ack"),
+    ("TlsExtensionType", 0, "server_name"), ("TlsExtensionType", 1, "max_fragment_length"), ("TlsExtensionType", 2, "client_certificate_url"),
+    ("TlsExtensionType", 3, "trusted_ca_keys"), ("TlsExtensionType", 4, "truncated_hmac"), ("TlsExtensionType", 5, "status_request"),
+    ("TlsExtensionType", 6, "user_mapping"), ("TlsExtensionType", 7, "client_authz"), ("TlsExtensionType", 8, "server_authz"),
+    ("TlsExtensionType", 9, "cert_type"), ("TlsExtensionType", 10, "supported_groups"), ("TlsExtensionType", 10, "elliptic_curves"),
+    ("TlsExtensionType", 11, "ec_point_formats"), ("TlsExtensionType", 12, "srp"), ("TlsExtensionType", 13, "signature_algorithms"),
+    ("TlsExtensionType", 14, "use_srtp"), ("TlsExtensionType", 15, "heartbeat"), ("TlsExtensionType", 16, "application_layer_protocol_negotiation"),
+    ("TlsExtensionType", 17, "status_request_v2"), ("TlsExtensionType", 18, "signed_certificate_timestamp"), ("TlsExtensionType", 19, "client_certificate_type"),
+    ("TlsExtensionType", 20, "server_certificate_type"), ("TlsExtensionType", 21, "padding"), ("TlsExtensionType", 22, "encrypt_then_mac"),
+    ("TlsExtensionType", 23, "extended_master_secret"), ("TlsExtensionType", 24, "token_binding"), ("TlsExtensionType", 25, "cached_info"),
+    ("TlsExtensionType", 26, "tls_lts"), ("TlsExtensionType", 27, "compress_certificate"), ("TlsExtensionType", 28, "record_size_limit"),
+    ("TlsExtensionType", 29, "pwd_protect"), ("TlsExtensionType", 30, "pwd_clear"), ("TlsExtensionType", 31, "password_salt"),
+    ("TlsExtensionType", 32, "ticket_pinning"), ("TlsExtensionType", 33, "tls_cert_with_extern_psk"), ("TlsExtensionType", 34, "delegated_credential"),
+    ("TlsExtensionType", 35, "session_ticket"), ("TlsExtensionType", 39, "supported_ekt_ciphers"), ("TlsExtensionType", 41, "pre_shared_key"),
+    ("TlsExtensionType", 42, "early_data"), ("TlsExtensionType", 43, "supported_versions"), ("TlsExtensionType", 44, "cookie"),
+    ("TlsExtensionType", 45, "psk_key_exchange_modes"), ("TlsExtensionType", 47, "certificate_authorities"), ("TlsExtensionType", 48, "oid_filters"),
+    ("TlsExtensionType", 49, "post_handshake_auth"), ("TlsExtensionType", 50, "signature_algorithms_cert"), ("TlsExtensionType", 51, "key_share"),
+    ("TlsExtensionType", 52, "transparency_info"), ("TlsExtensionType", 54, "connection_id"), ("TlsExtensionType", 55, "external_id_hash"),
+    ("TlsExtensionType", 56, "external_session_id"), ("TlsExtensionType", 57, "quic_transport_parameters"), ("TlsExtensionType", 58, "ticket_request"),
+    ("TlsExtensionType", 59, "dnssec_chain"), ("TlsExtensionType", 65281, "renegotiation_info"), ("TlsExtensionType", 64768, "ech_outer_extensions"),
+    ("TlsExtensionType", 65037, "encrypted_client_hello"),
+    ("HashAlgorithm", 0, "none"), ("HashAlgorithm", 1, "md5"), ("HashAlgorithm", 2, "sha1"), ("HashAlgorithm", 3, "sha224"),
+    ("HashAlgorithm", 4, "sha256"), ("HashAlgorithm", 5, "sha384"), ("HashAlgorithm", 6, "sha512"), ("HashAlgorithm", 8, "intrinsic"),
+    ("SignAlgorithm", 0, "anonymous"), ("SignAlgorithm", 1, "rsa"), ("SignAlgorithm", 2, "dsa"), ("SignAlgorithm", 3, "ecdsa"),
+    ("SignAlgorithm", 7, "ed25519"), ("SignAlgorithm", 8, "ed448"),
+    ("TlsHeartbeatMessageType", 1, "heartbeat_request"), ("TlsHeartbeatMessageType", 2, "heartbeat_response"),
+    ("PskKeyExchangeMode", 0, "psk_ke"), ("PskKeyExchangeMode", 1, "psk_dhe_ke"),
+    ("SNIType", 0, "host_name"),
+    ("CertificateStatusType", 1, "ocsp"), ("CertificateStatusType", 2, "ocsp_multi"),
+    ("ECCurveType", 1, "explicit_prime"), ("ECCurveType", 2, "explicit_char2"), ("ECCurveType", 3, "named_curve"),
+    ("KeyUpdateRequest", 0, "update_not_requested"), ("KeyUpdateRequest", 1, "update_requested"),
+];
